@@ -70,18 +70,90 @@ def concretize(ops, rng):
     return out
 
 
+def typed_ops(vd, drv, wd, typed):
+    """Operations with DIE, index and nested operands (Loc!TypedOps): the DWARF 5 operations and the GNU
+    extensions they were standardised from, each alone in an expression, in a version 5 and a version 4 unit."""
+    units, plan = [], []
+    nid = [40000]
+    def newid():
+        nid[0] += 1; return nid[0]
+    for ver in (5, 4):
+        tdie = newid()
+        kids = [{"id": tdie, "tag": 0x24, "children": [], "attrs": [{"name": 3, "form": "string", "value": "t"}, {"name": 0x0b, "form": "data1", "value": 4},
+                                                                      {"name": 0x3e, "form": "data1", "value": 5}]}]
+        for t in typed:
+            op = t["op"]
+            args, exp = [], []
+            for k, e in enumerate(op["enc"]):
+                if e in ("ulebref", "u4ref", "u2ref"): args.append(tdie); exp.append(("cuoff", tdie))
+                elif e == "refaddr": args.append(tdie); exp.append(("die", tdie))
+                elif e == "uleb": v = 3 + 100 * k; args.append(v); exp.append(("dec", v))
+                elif e == "u1": args.append(4); exp.append(("dec", 4))
+                # libdw (0.188) reads the byte offset of DW_OP_implicit_pointer as an unsigned LEB128 although the
+                # standard makes it signed: only values that both readings agree on (0..63) are dwgrep's to get right
+                elif e == "sleb": args.append(37); exp.append(("dec", 37))
+                elif e == "szblock": args.append([1, 2, 3, 4]); exp.append(("block", [1, 2, 3, 4]))
+                elif e == "nested": args.append([(0x55, [])]); exp.append(("llelem", 1))
+            if op["cls"] == "die-block":
+                exp[0] = ("die", tdie)            # the type DIE itself, then the block
+            did = newid()
+            kids.append({"id": did, "tag": 0x34, "children": [], "attrs": [{"name": 2, "form": "exprloc", "value": [(op["code"], args)]}]})
+            plan.append((did, ver, op, exp, t["branch"]))
+        units.append({"kind": "cu", "version": ver, "table": 70 + ver, "root": {"id": newid(), "tag": 0x11, "children": kids, "attrs": []}})
+    o, offs, _ = dwarfgen.build({"units": units}, wd, "typedops")
+    b = D.Built(o, offs)
+    cuoff = {}
+    for ui, u in enumerate(units):
+        for k in u["root"]["children"]:
+            cuoff[k["id"]] = offs["unit_%d" % ui]
+    jobs = [(o, "entry (offset == %d) [@AT_location elem [offset, label value, [value]]]" % b.off[did], False) for did, *_ in plan]
+    got_by = {}
+    for (did, ver, op, exp, branch), rec in zip(plan, D.run_queries(drv, jobs, wd, "typedops")):
+        vd.cov["evaluations"] += 1
+        key = "DW_OP_%s (version %d unit)" % (op["atom"], ver)
+        if not rec or rec.get("status") != "ok" or len(rec["results"]) != 1 or len(rec["results"][0][-1]["v"]) != 1:
+            vd.observe(key + ": query failed", {"observed": rec}); continue
+        opv = rec["results"][0][-1]["v"][0]["v"]
+        vals = []
+        for x in opv[2]["v"]:
+            if x["t"] == "cst": vals.append(("dec" if x["dom"] == "dec" else x["dom"], int(x["v"])))
+            elif x["t"] == "seq": vals.append(("block", [int(y["v"]) for y in x["v"]]))
+            elif x["t"] == "llelem": vals.append(("llelem", x["n"]))
+            elif x["t"] == "die": vals.append(("die", b.rev.get(x["off"])))
+            else: vals.append((x["t"], None))
+        want = [("dec", b.off[v] - cuoff[v]) if k == "cuoff" else (k, v) for k, v in exp]
+        got_by[(op["atom"], ver)] = [(k, None if k == "dec" and False else v) for k, v in vals]
+        if D.cst(opv[0]) != 0 or D.cst(opv[1]) != op["code"] or vals != want:
+            vd.observe(key + ": operands", {"expected": want, "observed": vals, "opcode": opv[1], "model_branch": branch})
+    # a standardised operation reports what the extension it came from reports
+    for (did, ver, op, exp, branch) in plan:
+        if op["twin"] != "none" and (op["twin"], ver) in got_by and (op["atom"], ver) in got_by:
+            vd.cov["evaluations"] += 1
+            if got_by[(op["atom"], ver)] != got_by[(op["twin"], ver)]:
+                vd.observe("DW_OP_%s and DW_OP_%s report different operands (version %d unit)" % (op["atom"], op["twin"], ver),
+                           {"standard": got_by[(op["atom"], ver)], "gnu": got_by[(op["twin"], ver)]})
+    return len(plan)
+
+
 def locations(vd, drv, wd, rng, tier):
     """The location part: expressions of tla/Loc.tla (menu pairs and the whole operand table) in every form and
     version, compared operation by operation.  Shared with C07, whose statement covers the operands of location
     attributes as well.  Returns the abbreviation reference lists of the same TLC run."""
     out = os.path.join(wd, "loc.ndjson")
-    r = tlc.run_tlc("LocGen", constants={"OutFile": out, "MutSeen": "none"}, workers=1, timeout=900)
+    # the switch over the operations as it was before fix 560f4a6 does not report every operand (self-test)
+    rp = tlc.run_tlc("LocGen", constants={"OutFile": out + ".pinned", "MutSeen": "none", "PinnedOps": True}, workers=1, timeout=900)
+    if '"TYPEDOPS", FALSE' not in rp.out.replace("\n", " "):
+        raise common.ToolError("Loc.tla: the pinned switch is not caught\n" + rp.out[-1500:])
+    r = tlc.run_tlc("LocGen", constants={"OutFile": out, "MutSeen": "none", "PinnedOps": False}, workers=1, timeout=900)
     if not r.ok or not os.path.exists(out):
         if "ssumption" in r.out:
             vd.observe("model:location / abbreviation laws", {"output": r.out[-3000:]})
         raise common.ToolError("LocGen failed\n" + r.out[-2000:])
     vecs = [json.loads(l) for l in open(out) if l.strip()]
     exprs = [v for v in vecs if v["kind"] in ("expr", "sweep")]
+    if '"TYPEDOPS", TRUE, TRUE' not in r.out.replace("\n", " "):
+        vd.observe("model:an operation of Loc!TypedOps does not report its operands (OperandsReported / TwinsAgree)", {"output": r.out[-2000:]})
+    typed_ops(vd, drv, wd, [v for v in vecs if v["kind"] == "typed"])
     refs = [v for v in vecs if v["kind"] == "abbrev"]
     vd.cov["states"] += len(vecs); vd.cov["transitions"] += len(vecs)
     # ---- locations: every expression as exprloc (v4, v5), block1 (v3) and inside a two/three-range location list (v3)
